@@ -37,21 +37,22 @@ def rowsView (c : PTChain) : List (Option Swap.Row) := c.rows.take c.nrows
 
 /-- Replace the swappable part of the last record of a level. -/
 def rewriteLast (l : Chain) (st : St) : Chain :=
-  let ii := l.len - 1
-  match rowAt l.scratch ii with
-  | some r => { l with scratch := setAt l.scratch ii { r with st := st } }
+  match rowAt l.scratch (l.len - 1) with
+  | some r => { l with scratch := setAt l.scratch (l.len - 1) { r with st := st } }
   | none => l
+
+def maybeRewrite (l : Chain) : Option St → Chain
+  | some st => rewriteLast l st
+  | none => l
+
+def maybeReset (b : Bool) (l : Chain) : Chain := if b then l.resetProposals else l
 
 /-- The "apply" block of `swap_temperatures`: level `t` receives what level
     `idx[t]` held; levels whose index changed are reset when requested. -/
 def applySwap (reset : Bool) (levels : List Chain) (idx : List Nat) : List Chain :=
   let olds := levels.map (·.current)
   (levels.zip (List.range levels.length)).map fun (l, t) =>
-    let src := idx.getD t t
-    let l' := match olds.getD src none with
-              | some st => rewriteLast l st
-              | none => l
-    if reset && src != t then l'.resetProposals else l'
+    maybeReset (reset && idx.getD t t != t) (maybeRewrite l (olds.getD (idx.getD t t) none))
 
 /-- Where the annealer writes the adapted ladder: the ladder array **and** the levels. -/
 def setBetas (c : PTChain) (nb : List Rat) : PTChain :=
@@ -68,14 +69,20 @@ structure SweepIn where
   newBetas : List Rat           -- annealer output (read iff `dynamic`)
 deriving Inhabited
 
+/-- What a completed sweep with outcome `row` does to the chain: apply the
+    permutation, store the row, let the annealer rewrite the ladder. -/
+def afterSweep (c : PTChain) (row : Swap.Row) (newBetas : List Rat) : PTChain :=
+  let c' := { c with levels := applySwap c.resetAfterSwap c.levels row.idx
+                     rows := setAt c.rows ((c.len - 1) / c.s) row }
+  if c.dynamic then c'.setBetas (annealedBetas c.betas newBetas) else c'
+
+/-- The current log-likelihood of every level (`self.current_stats['logl']`). -/
+def logls (c : PTChain) : List Rat := c.levels.map fun l => (l.current.map (·.logl)).getD 0
+
 /-- `swap_temperatures`. `none`: the uniform stream does not match the sweep's needs. -/
 def swapTemperatures (c : PTChain) (i : SweepIn) : Option PTChain :=
-  let logls := c.levels.map fun l => (l.current.map (·.logl)).getD 0
-  match Swap.sweep c.betas logls i.us with
-  | some (row, []) =>
-    let c' := { c with levels := applySwap c.resetAfterSwap c.levels row.idx
-                       rows := setAt c.rows ((c.len - 1) / c.s) row }
-    some (if c.dynamic then c'.setBetas (annealedBetas c.betas i.newBetas) else c')
+  match Swap.sweep c.betas c.logls i.us with
+  | some (row, []) => some (c.afterSweep row i.newBetas)
   | _ => none
 
 /-- Is a sweep due after the step that brings the chain to iteration `it`? -/
